@@ -6,6 +6,7 @@ import (
 	"encoding/json"
 	"fmt"
 	"math"
+	"strconv"
 	"strings"
 	"testing"
 	"unicode/utf8"
@@ -229,7 +230,35 @@ func genMutant(t *rapid.T) Case {
 	n := rapid.IntRange(1, 3).Draw(t, "nmut")
 	for ; n > 0 && len(toks) > 0; n-- {
 		i := rapid.IntRange(0, len(toks)-1).Draw(t, "pos")
-		switch rapid.IntRange(0, 6).Draw(t, "mut") {
+		switch rapid.IntRange(0, 8).Draw(t, "mut") {
+		case 7, 8: // a generated plain-decimal or exponent literal: any number of leading zeros,
+			// integer digits and fractional digits (0..40), few or many significant digits
+			var sb strings.Builder
+			if rapid.Bool().Draw(t, "neg") {
+				sb.WriteByte('-')
+			}
+			sb.WriteString(strings.Repeat("0", rapid.SampledFrom([]int{0, 0, 0, 1, 3}).Draw(t, "lead0")))
+			ni := rapid.SampledFrom([]int{0, 1, 1, 2, 5, 15, 16, 17, 20, 25, 310}).Draw(t, "nint")
+			for j := 0; j < ni; j++ {
+				sb.WriteByte(byte('0' + rapid.IntRange(0, 9).Draw(t, "id")))
+			}
+			nf := rapid.IntRange(0, 40).Draw(t, "nfrac")
+			if nf > 0 || rapid.IntRange(0, 4).Draw(t, "dot") == 0 {
+				sb.WriteByte('.')
+			}
+			sig := rapid.IntRange(0, nf).Draw(t, "nsig") // the last sig fractional digits are random, the others 0
+			for j := 0; j < nf; j++ {
+				if j >= nf-sig {
+					sb.WriteByte(byte('0' + rapid.IntRange(0, 9).Draw(t, "fd")))
+				} else {
+					sb.WriteByte('0')
+				}
+			}
+			if rapid.IntRange(0, 3).Draw(t, "exp") == 0 {
+				sb.WriteString(rapid.SampledFrom([]string{"e", "E", "e+", "e-", "E-"}).Draw(t, "e"))
+				sb.WriteString(strconv.Itoa(rapid.SampledFrom([]int{0, 1, 5, 22, 23, 100, 308, 309, 324, 400}).Draw(t, "ev")))
+			}
+			toks[i] = sb.String()
 		case 6: // an extreme number literal in place of a token (overflow, underflow, very long)
 			toks[i] = rapid.SampledFrom([]string{"1e999", "-1e400", "2e308", "1e-400", "1.7976931348623159e308", "-1.7976931348623157e308", "1" + strings.Repeat("0", 310), "0." + strings.Repeat("0", 330) + "7", "9e307", "4.9e-324", "2e-324"}).Draw(t, "extreme")
 		case 0:
